@@ -10,7 +10,7 @@ import json
 import random
 import sys
 
-CLASSES = ["mix", "reuse", "disable", "post", "timers", "idle", "life", "faults", "fds", "ready"]
+CLASSES = ["mix", "reuse", "disable", "post", "timers", "idle", "life", "faults", "fds", "ready", "pings", "chans"]
 
 
 def nch(d):
@@ -52,7 +52,7 @@ class G:
         r = self.r
         w = {"mix": [3, 2, 3, 3], "reuse": [3, 1, 2, 4], "disable": [3, 2, 3, 3], "post": [1, 0, 1, 6],
              "timers": [2, 0, 6, 1], "idle": [3, 1, 1, 1], "life": [2, 0, 0, 6], "faults": [2, 1, 2, 5],
-             "fds": [2, 1, 0, 6], "ready": [2, 2, 2, 5]}[self.cls]
+             "fds": [2, 1, 0, 6], "ready": [2, 2, 2, 5], "pings": [8, 0, 1, 1], "chans": [1, 8, 1, 1]}[self.cls]
         kind = r.choices(["ping", "chan", "timer", "comp"], weights=w)[0]
         d = {"s": s, "kind": kind}
         if kind == "chan" and r.random() < 0.3:
@@ -167,7 +167,7 @@ class G:
     def mk_programs(self):
         r = self.r
         dens = {"mix": 0.5, "reuse": 0.7, "disable": 0.6, "post": 0.5, "timers": 0.5, "idle": 0.6,
-                "life": 0.3, "faults": 0.3, "fds": 0.2, "ready": 0.4}[self.cls]
+                "life": 0.3, "faults": 0.3, "fds": 0.2, "ready": 0.4, "pings": 0.6, "chans": 0.6}[self.cls]
         for d in self.srcs:
             s = d["s"]
             progs = []
